@@ -117,6 +117,15 @@ func (c *Ctx) ReportBroken(name string, detail map[string]any) {
 
 // Finish writes replay files, evidence, prints verdict lines and returns the exit code.
 func (c *Ctx) Finish() int {
+	if c.Replay != "" {
+		// replay mode: nothing is written; exit 1 iff the recorded case still fails
+		if len(c.Violations) > 0 {
+			fmt.Printf("VIOLATION property=%s replay=%s\n", c.Prop, c.Replay)
+			return 1
+		}
+		fmt.Printf("replay of %s: the recorded case no longer fails\n", c.Replay)
+		return 0
+	}
 	// known findings that were hit
 	sigs := make([]string, 0, len(c.KnownHit))
 	for s := range c.KnownHit {
@@ -351,4 +360,13 @@ func Unhex(h string) string {
 	var b []byte
 	_, _ = fmt.Sscanf(h, "%x", &b)
 	return string(b)
+}
+
+// ReadJSON loads a JSON file into v.
+func ReadJSON(path string, v any) error {
+	b, err := os.ReadFile(path)
+	if err != nil {
+		return err
+	}
+	return json.Unmarshal(b, v)
 }
